@@ -1,0 +1,18 @@
+//go:build verif
+
+// Contracts for this header-sync router, read by /verif/gocv.
+package quorum
+
+//@ func (*QuorumHandler).SyncGenesisHeader
+//@   property C18
+//@   mode abstract
+//@   modifies Store
+//@   requires ns != nil && ns.tx != nil
+//@   ghost var wit bool = false
+//@   ghost var op [20]byte
+//@   set after "op, err := node_manager.GetCurConOperator(ns)" : op := op
+//@   set after "err = utils.ValidateOwner(ns, op)" : wit := err == nil
+//@   -- the address that must witness is the consensus operator just derived from the current validators
+//@   callsite[c18-operator] ValidateOwner#1 requires arg1 == op
+//@   -- installing a trust root changes storage only with the operator's witness
+//@   ensures[c18-witness] Store != old(Store) ==> wit
